@@ -41,6 +41,8 @@ type c17bCase struct {
 	// Host: where the blob sits: "<method>|<request|response>|<path to the event-blob field>"; "" = the repeated field
 	// GetWorkflowExecutionRawHistoryV2Response.history_batches
 	Host string `json:"host,omitempty"`
+	// Kind "deep_blob": the deterministic deep-chain cell (vf_c17_deep_test.go), replayed as a whole
+	Kind string `json:"kind,omitempty"`
 }
 
 type c17bHost struct {
@@ -351,8 +353,15 @@ func TestVF_C17_Blob(t *testing.T) {
 		if _, err := vfshared.LoadReplay(f, &c); err != nil {
 			t.Fatal(err)
 		}
+		if c.Kind == "deep_blob" {
+			c17bDeepCell(t, st, part)
+			return
+		}
 		run(t, c)
 		return
+	}
+	if sh, _ := vfshared.Shard(); sh == 0 {
+		c17bDeepCell(t, st, part)
 	}
 	bad := []string{"\xff", "\xfe\xff", "\xc3\x28", "\xe2\x82", "\xed\xa0\x80", "\x80"}
 	rapid.Check(t, func(rt *rapid.T) {
